@@ -413,7 +413,11 @@ def main(argv=None):
         parts.update(res["parts"])
         classes.update(res["classes"])
         extra.update(res["extra"])
-        notes.update(res["notes"])
+        for key, val in res["notes"].items():
+            if isinstance(val, (int, float)) and isinstance(notes.get(key), (int, float)):
+                notes[key] = max(notes[key], val)
+            else:
+                notes[key] = val
         for smp in res["samples"]:
             if len(samples) < MAX_SAMPLES:
                 samples.append(smp)
